@@ -54,6 +54,7 @@ import CtyModel.Lemmas.d15Mirror
 import CtyModel.Lemmas.d15Emit
 import CtyModel.Lemmas.d15DocU
 import CtyModel.Lemmas.d15Reject
+import CtyModel.Lemmas.d15DocDup
 import CtyModel.Lemmas.JsonValStrip
 import CtyModel.Lemmas.JsonValNoOpt
 import CtyModel.Lemmas.JsonValReject
@@ -401,8 +402,10 @@ example :
 representable numbers and no conflicting duplicate keys the implied type is the document's
 structural type, unmarshalling with it succeeds and re-marshalling gives the same document
 up to key order, number spelling and string normalization"), for an idempotent `norm`.
-PROVED for keys in any order as long as no object repeats a key (`doc_roundtrip_any_key_order`);
-NOT PROVED for objects repeating a key with members of equal type; since /repo
+PROVED: `doc_roundtrip_holds` / `doc_roundtrip_full` below (keys in any order, keys repeated —
+also keys that coincide only after normalisation — as long as the members under one
+normalised key have `Equals` implied types); about the recursion WITHOUT the nesting limit of
+the code's `ImpliedType` (`doc_roundtrip_full_go` adds it).  Since /repo
 5aa0ac9 no counterexample is known: the former one (`{"e\u0301": null}`) now passes, see
 `doc_roundtrip_nonNFC_key`.  The harness evaluates this check on every generated document. -/
 def doc_roundtrip : Prop :=
@@ -448,8 +451,7 @@ the object type over the sorted normalised keys), unmarshalling with it succeeds
 has exactly that type, and re-marshalling returns the same document up to key order, number
 spelling and string normalisation (`canon` sorts the members and normalises keys and strings,
 `jsonEquiv` compares numbers as 512-bit parses) — the check `docCheckFull` of the full
-statement.  What is still NOT proved of `doc_roundtrip`: objects that REPEAT a key with
-members of equal type (the harness searches those on every run). -/
+statement.  (`doc_roundtrip_full` drops "distinct" too.) -/
 theorem doc_roundtrip_any_key_order (env : JEnv) (d : Json)
     (hid : ∀ s, env.norm (env.norm s) = env.norm s) (h : docOKU env d = true) :
     impliedType env d = .ok (structTyU env.norm d) ∧
@@ -491,6 +493,58 @@ example : docOKU env0 (.obj ["b", "a"] [.num "1", .num "2"]) = true ∧
     docOK env0 (.obj ["b", "a"] [.num "1", .num "2"]) = false ∧
     docOKU envNFC0 (.obj ["z", "e\u0301", "a"] [.obj ["y", "x"] [.null, .obj [] []], .num "1.50", .arr [.str "s"]]) = true ∧
     docOKU env0 (.obj ["a", "a"] [.num "1", .num "2"]) = false := by decide +kernel
+
+/-- THE FULL DOCUMENT CLAUSE (audit C15 item 1).  For every document (any depth) with
+representable numbers and no conflicting duplicate keys — `docValid`: objects may list their
+keys in any order and REPEAT them, also keys that coincide only after normalisation, as long as
+the members under one normalised key have `Equals` implied types — and an idempotent `norm`:
+the implied type IS the structural type (`structTyU`: per normalised key the type of its
+members), unmarshalling with it succeeds and gives a value of exactly that type, and
+re-marshalling returns the same document up to key order, number spelling and string
+normalisation, where of several members under one key the LAST in document order stands
+(in the decoder — it fills a Go map — as in `canon`, and as in plain JSON decoding). -/
+theorem doc_roundtrip_full (env : JEnv) (d : Json)
+    (hid : ∀ s, env.norm (env.norm s) = env.norm s) (h : docValid env d = true) :
+    impliedType env d = .ok (structTyU env.norm d) ∧
+    ∃ v d', unmarshalTop env d (structTyU env.norm d) = .ok v ∧ v.ty = structTyU env.norm d ∧
+      marshal env v (structTyU env.norm d) = .ok d' ∧ jsonEquiv (canon env d') (canon env d) = true := by
+  obtain ⟨p, d', hi, hu, hm, hk, hmar, he⟩ := doc_rtD env hid d h
+  have hu' : unmarshalTop env d (structTyU env.norm d) = .ok ⟨structTyU env.norm d, p⟩ := by
+    unfold unmarshalTop
+    rw [stripOpt_id_of_noOpt _ (structTyU_noOpt env.norm d)]
+    exact hu
+  refine ⟨hi, ⟨structTyU env.norm d, p⟩, d', hu', rfl, ?_, he⟩
+  unfold marshal
+  rw [marshalEntry_same (structTyU env.norm d) p _ hm hk]
+  exact hmar
+
+/-- … which is the statement `doc_roundtrip` kept above as the full strength of the clause -/
+theorem doc_roundtrip_holds : doc_roundtrip := fun env d hid h => by
+  obtain ⟨hi, v, d', hu, _, hm, he⟩ := doc_roundtrip_full env d hid h
+  simp [docCheckFull, hi, hu, hm, he]
+
+/-- … and with the code's `ImpliedType` / `SimpleJSONValue` (nesting limit, see below) -/
+theorem doc_roundtrip_full_go (env : JEnv) (d : Json)
+    (hid : ∀ s, env.norm (env.norm s) = env.norm s) (h : docValid env d = true)
+    (hd : nest d ≤ Generated.jsonMaxImpliedTypeDepth) :
+    impliedTypeGo env d = .ok (structTyU env.norm d) ∧
+    ∃ v d', simpleUnmarshalGo env d = .ok v ∧ v.ty = structTyU env.norm d ∧
+      marshal env v (structTyU env.norm d) = .ok d' ∧ jsonEquiv (canon env d') (canon env d) = true := by
+  obtain ⟨hi, v, d', hu, hty, hm, he⟩ := doc_roundtrip_full env d hid h
+  have hg : impliedTypeGo env d = impliedType env d := impliedTypeD_eq env _ d 0 (by omega)
+  refine ⟨hg.trans hi, v, d', ?_, hty, hm, he⟩
+  simp [simpleUnmarshalGo, hg, hi, hu]
+
+/-- the hypothesis is met by a document that repeats a key (with members of one type), repeats
+it in another spelling, and lists its keys unsorted; it is not met when the repeated members
+differ in type -/
+example : docValid envNFC0 (.obj ["z", "e\u0301", "a", "\u00e9", "a"]
+      [.null, .arr [.num "1"], .str "x", .arr [.num "2.50"], .str "y"]) = true ∧
+    docOKU envNFC0 (.obj ["z", "e\u0301", "a", "\u00e9", "a"]
+      [.null, .arr [.num "1"], .str "x", .arr [.num "2.50"], .str "y"]) = false ∧
+    docCheckFull envNFC0 (.obj ["z", "e\u0301", "a", "\u00e9", "a"]
+      [.null, .arr [.num "1"], .str "x", .arr [.num "2.50"], .str "y"]) = true ∧
+    docValid env0 (.obj ["a", "a"] [.num "1", .str "x"]) = false := by decide +kernel
 
 /-- an environment in which "e" + combining acute normalises to "é" (as NFC does) -/
 def envNFC : JEnv :=
